@@ -368,8 +368,11 @@ pub fn all_bytes_stage(rep: &mut Report, env: &AppEnv, stage: &str, bases: &[Vec
 pub fn busy_stage(rep: &mut Report, cfg: &Cfg, prop: &'static str, stage: &str, convs: &[(String, Vec<Vec<u8>>)], nfill: usize) {
     let t0 = std::time::Instant::now();
     let flows: Vec<Flow> = (0..convs.len()).map(|j| flow(j % 2 == 1, 41000 + j as u16, 80)).collect();
-    let ck = match learn_cookies(cfg, &flows) {
-        Ok(c) if c.len() == flows.len() => c,
+    // the same conversations once more on flows that only START when the table is already busy
+    let late: Vec<Flow> = (0..convs.len()).map(|j| flow(j % 2 == 0, 43000 + j as u16, 80)).collect();
+    let both: Vec<Flow> = flows.iter().chain(late.iter()).cloned().collect();
+    let ck = match learn_cookies(cfg, &both) {
+        Ok(c) if c.len() == both.len() => c,
         _ => {
             rep.extra.insert(format!("{}_skipped", stage), serde_json::json!("cookies of the conversation flows could not be learned"));
             return;
@@ -378,6 +381,7 @@ pub fn busy_stage(rep: &mut Report, cfg: &Cfg, prop: &'static str, stage: &str, 
     // idle-process runs: expected canonical replies and reply lengths
     let canon = |r: Option<&[u8]>| crate::props::c19::canon_for("", r, true);
     let mut want: Vec<Vec<String>> = Vec::new();
+    let mut want_late: Vec<Vec<String>> = Vec::new();
     let mut acks: Vec<Vec<u32>> = Vec::new();
     {
         let mut d = match crate::driver::Driver::spawn(cfg) {
@@ -407,6 +411,17 @@ pub fn busy_stage(rep: &mut Report, cfg: &Cfg, prop: &'static str, stage: &str, 
             }
             want.push(w);
             acks.push(a);
+            // the same conversation on its late flow (replies may carry the client's endpoint)
+            let f = &late[j];
+            let c = ck[&key_of(f)].wrapping_add(1);
+            let mut cmds = vec![Cmd::Reset];
+            let mut off = 0u32;
+            for sg in segs {
+                cmds.push(Cmd::Frame(f.tcp(1000u32.wrapping_add(off), c, F_PSH | F_ACK, sg)));
+                off = off.wrapping_add(sg.len() as u32);
+            }
+            let outs = d.exec(&cmds).unwrap_or_default();
+            want_late.push(outs.iter().skip(1).map(|o| canon(o.reply.as_deref())).collect());
         }
     }
     let fill = crate::props::c07::many_flow_set(cfg, nfill, 8000, rep);
@@ -437,6 +452,16 @@ pub fn busy_stage(rep: &mut Report, cfg: &Cfg, prop: &'static str, stage: &str, 
             off = off.wrapping_add(sg.len() as u32);
         }
     }
+    let mut late_pos: Vec<Vec<usize>> = vec![Vec::new(); convs.len()];
+    for (j, (_, segs)) in convs.iter().enumerate() {
+        let c = ck[&key_of(&late[j])].wrapping_add(1);
+        let mut off = 0u32;
+        for (k, sg) in segs.iter().enumerate() {
+            late_pos[j].push(cmds.len());
+            cmds.push(Cmd::Frame(late[j].tcp(1000u32.wrapping_add(off), c.wrapping_add(acks[j][k].wrapping_sub(acks[j][0])), F_PSH | F_ACK, sg)));
+            off = off.wrapping_add(sg.len() as u32);
+        }
+    }
     let total = cmds.len() as u64;
     let opts = RunOpts::new(stage).stateful().chunk(1).no_monitor();
     let cfgc = cfg.clone();
@@ -447,6 +472,23 @@ pub fn busy_stage(rep: &mut Report, cfg: &Cfg, prop: &'static str, stage: &str, 
         |_| cmds.clone(),
         |it: &Item, sk: &mut Sink| {
             sk.count("frames", total);
+            for (j, (name, _)) in convs.iter().enumerate() {
+                for (k, p) in late_pos[j].iter().enumerate() {
+                    let got = canon(it.outs[1 + p].reply.as_deref());
+                    if got != want_late[j][k] {
+                        sk.violation(crate::engine::Violation {
+                            prop: prop.into(),
+                            key: format!("busy-responder-late:{}", name),
+                            what: format!("conversation '{}' started after {} other connections, segment {}: the reply is {} instead of {} (idle process)", name, fill.len(), k + 1, &got[..got.len().min(80)], &want_late[j][k][..want_late[j][k].len().min(80)]),
+                            cfg: cfgc.clone(),
+                            cmds: it.cmds[..=1 + p].to_vec(),
+                            idx: j as u64,
+                            stage: stage.to_string(),
+                        });
+                        break;
+                    }
+                }
+            }
             for (j, (name, _)) in convs.iter().enumerate() {
                 for (k, p) in pos[j].iter().enumerate() {
                     let got = canon(it.outs[1 + p].reply.as_deref());
